@@ -504,9 +504,11 @@ def plain_field(shape, B, ctx):
 
 def build_field(field, ctx):
     """Returns (object handed to the solver, tree or None)."""
-    if field["kind"] == "plain":
-        return plain_field(field["shape"], field["B"], ctx), {"leaf": "const_field", "B": field["B"]}
     gauge = field.get("gauge")
+    if field["kind"] == "plain" and gauge is None:
+        return plain_field(field["shape"], field["B"], ctx), {"leaf": "const_field", "B": field["B"]}
+    if field["kind"] == "plain":
+        field = {"kind": "const_param", "B": field["B"], "gauge": gauge}  # the gauge twin needs a Parameter sum
     tree = field_to_tree(field)
     if tree is None:
         B = 0.0 if field["kind"] == "zero" else field["B"]
